@@ -2043,3 +2043,8 @@ MUTANTS.append({"id": "C02-guarded-overload-ends-dispatch-coercion-loop", "prop"
 MUTANTS.append({"id": "C02-benign-dead-code-flag-set-by-expression", "prop": "C02", "expect": None, "benign": True, "edits": [
     (F_PN, "        if (!remap_verify_const) {\n          caught_all = true;\n          //indent(out, indent_level) << \"  // caught all cases here\\n\";\n        }\n",
            "        if (remap_verify_const) {\n          // written under a run-time test: the next overload is still live\n        } else {\n          caught_all = true;\n        }\n")]})
+
+# ---- R20.11 (= R13.6 from the lookup side; seed S8-C20)
+M("C20-merge-looks-up-plain-name", "C20", "src/interrogatedb/interrogateDatabase.cxx",
+  "      ni = types_by_name.find(other_type.get_true_name());", "      ni = types_by_name.find(other_type.get_name());",
+  expect="R20.11|merge_from|types_by_name.find")
